@@ -106,7 +106,10 @@ struct State
   }
 };
 
-double tolOf(double scale) { return 1e-11 * scale + 1e-290; }
+// Rounding errors made while the matrix held large terms stay (in absolute value) when a later op makes the terms
+// small (x + s - s): the tolerance is relative to the largest magnitude the reference went through since its last reset.
+double g_histMag = 0.;
+double tolOf(double scale) { return 1e-11 * (scale + g_histMag) + 1e-290; }
 
 // compare a matrix with the reference (scale = magnitude bound per entry, or global)
 void cmpMatrix(const AMatrix* m, const Ref& r, const Mat* scale, const std::string& who, const std::string& op, Fail& f, bool exact)
@@ -285,6 +288,7 @@ struct Exec
     c->begin(idx, k);
     Ref& R = S.ref;
     long regions0 = g_parRegions;
+    for (auto& row : R.a) for (double x : row) if (std::isfinite(x) && std::fabs(x) > g_histMag) g_histMag = std::fabs(x);
     if (k == "reset")
     {
       int cls = (int)(op.I(0) % 10);
@@ -298,6 +302,17 @@ struct Exec
       else { nr = N; nc = M; }
       int structure = (nr == nc) ? (int)(op.I(4) % 4) : 0;
       fillRef(R, r, nr, nc, (int)op.I(5), structure);
+      g_histMag = 0.;
+      {
+        // overall magnitude: results must not depend on absolute thresholds (an inverse of 1e8*A has terms near 1e-8)
+        static const double SCALE[] = {1., 1., 1., 1., 1e8, 1e-8, 1e4, 1e-4};
+        double sc = SCALE[(size_t)(op.I(8, 0) % 8)];
+        if (sc != 1.)
+        {
+          for (auto& row : R.a) for (auto& x : row) x *= sc;
+          c->fp(sc > 1. ? "scale:large" : "scale:small");
+        }
+      }
       S.rebuild(!large || (op.I(6) % 2 == 0));
       c->fp(std::string("shape:") + (large ? "large" : (nr == nc ? "square" : (nr == 1 ? "row" : (nc == 1 ? "col" : "rect")))) + ":s" + std::to_string(structure));
       cmpAll(k, nullptr, true);
